@@ -974,4 +974,8 @@ def run(P, R, tier):
     # setting has fallen back to it
     from . import c14 as _c14
     _c14.defaults_read_only(P, R, 'C15.OWN.2')
+    # shared (round 9): whether a typed value parses depends on its text alone, not on what was parsed before
+    from ..report import Remap as _Remap
+    from . import c16 as _c16
+    _c16.unknown_chars(P, _Remap(R, {'C16.GRD.1': 'C15.GRD.6'}))
     return EXPLANATION, ASSUMPTIONS
